@@ -16,6 +16,13 @@
  * OS entropy device is a script of sessions, one per open():
  *   os <sessions> <reqs>   -> "<r1> ... | K=.. V=.. c=.. i=.. used=<sessions> sys=<s1>+<s2>.."
  *   sess <buflen> <session> -> "ok <hex> sys=<s>" | "fail sys=<s>"     (entropy_read alone)
+ * Both take an optional last token app:<a>-<b>[,<a>-<b>...]: the APPLICATION holds entropy_read
+ * cookies of its own (public entropy_read_init .. entropy_read_fill .. entropy_read_done): one is
+ * obtained before request number a (from 0) and, after request number b, used for a fill and
+ * released (at the end of the case if b is beyond the last request).  entropy.h: every cookie is
+ * an independent object, so the results are those of the line without the token (which is what
+ * the model is given); the application's descriptors are outside the script, deliver a pattern of
+ * their own, and a cookie may only ever read and close the descriptor that its own open returned.
  * session = <o|x>:<reads>:<closes> (see model/drbg_main.ml).  The wrappers also check that the
  * device is "/dev/urandom" opened read-only, that read and close are given the descriptor open
  * returned, and that every read asks exactly for the unfilled rest of one buffer.
@@ -41,13 +48,30 @@ static int nans, ans_pos;
 static int bad_request;		/* read() asked for more than remains / wrong pointer */
 static uint8_t * fill_buf; static size_t fill_len, fill_off;
 
-/* the device opens and closes without incident here; DRV_OS scripts those too */
+/* the device opens and closes without incident here; DRV_OS scripts those too.  Every open()
+ * returns a descriptor of its own; a cookie reads and closes the one ITS open returned. */
+#define FILL_FD0 12345
+#define FILL_MAXFD 8
+static int fd_isopen[FILL_MAXFD], nopened;
+static int fill_fd;		/* the descriptor of the cookie under test */
+static int bad_fd;		/* a descriptor used that is closed / not this cookie's / none opened */
 int __wrap_open(const char *, int, ...);
 int __wrap_open64(const char *, int, ...);
 int __wrap_close(int);
-int __wrap_open(const char * path, int flags, ...) { (void)path; (void)flags; return (12345); }
-int __wrap_open64(const char * path, int flags, ...) { (void)path; (void)flags; return (12345); }
-int __wrap_close(int fd) { (void)fd; return (0); }
+static int fill_open(void)
+{
+	if (nopened >= FILL_MAXFD) { bad_fd = 1; return (-1); }
+	fd_isopen[nopened] = 1;
+	return (FILL_FD0 + nopened++);
+}
+int __wrap_open(const char * path, int flags, ...) { (void)path; (void)flags; return (fill_open()); }
+int __wrap_open64(const char * path, int flags, ...) { (void)path; (void)flags; return (fill_open()); }
+int __wrap_close(int fd)
+{
+	if (fd < FILL_FD0 || fd >= FILL_FD0 + nopened || !fd_isopen[fd - FILL_FD0]) { bad_fd = 1; errno = EBADF; return (-1); }
+	fd_isopen[fd - FILL_FD0] = 0;
+	return (0);
+}
 
 ssize_t __wrap_read(int, void *, size_t);
 ssize_t
@@ -55,8 +79,11 @@ __wrap_read(int fd, void * buf, size_t n)
 {
 	size_t k;
 
-	if (fd != 12345)
-		bad_request = 1;
+	if (fd != fill_fd || fd < FILL_FD0 || fd >= FILL_FD0 + nopened || !fd_isopen[fd - FILL_FD0]) {
+		bad_fd = 1;
+		errno = EBADF;
+		return (-1);
+	}
 	/* the library must ask exactly for the unfilled rest of the buffer */
 	if ((uint8_t *)buf != fill_buf + fill_off || n != fill_len - fill_off)
 		bad_request = 1;
@@ -77,14 +104,18 @@ __wrap_read(int fd, void * buf, size_t n)
 	return ((ssize_t)k);
 }
 
+/* other: what else the application is doing (a function of the case text): 0 nothing; it holds
+ * ANOTHER cookie 1 from before this one's init until after its done, 2 from before its init until
+ * just before its fill, 3 from after its init until just before its done.  Cookies are independent
+ * objects, so the result is the same in all four. */
 static void
-fill_case(char * nstr, char * astr)
+fill_case(char * nstr, char * astr, int other)
 {
-	struct entropy_read_cookie * er;
+	struct entropy_read_cookie * er, * er2 = NULL;
 	size_t n = (size_t)strtoull(nstr, NULL, 10);
 	char * p = astr; int rc, used, i;
 
-	nans = ans_pos = 0; bad_request = 0;
+	nans = ans_pos = 0; bad_request = 0; bad_fd = 0; nopened = 0; fill_fd = -1;
 	if (strcmp(astr, "-") != 0) {
 		while (p != NULL && nans < MAXANS) {
 			char * q = strchr(p, ',');
@@ -98,11 +129,21 @@ fill_case(char * nstr, char * astr)
 	}
 	fill_buf = malloc(n ? n : 1); fill_len = n; fill_off = 0;
 	memset(fill_buf, 0xaa, n);
+	if ((other == 1 || other == 2) && (er2 = entropy_read_init()) == NULL) { printf("init-failed\n"); exit(1); }
+	i = nopened;
 	if ((er = entropy_read_init()) == NULL) { printf("init-failed\n"); exit(1); }
+	if (nopened == i + 1) fill_fd = FILL_FD0 + i; else bad_fd = 1;	/* its own open */
+	if (other == 3 && (er2 = entropy_read_init()) == NULL) { printf("init-failed\n"); exit(1); }
+	if (other == 2 && entropy_read_done(er2)) bad_fd = 1;
 	rc = entropy_read_fill(er, fill_buf, n);
 	used = ans_pos > nans ? nans : ans_pos;
-	if (entropy_read_done(er)) { printf("done-failed\n"); exit(1); }
-	if (bad_request)
+	if (other == 3 && entropy_read_done(er2)) bad_fd = 1;
+	if (entropy_read_done(er)) { if (!bad_fd) { printf("done-failed\n"); exit(1); } }
+	if (other == 1 && entropy_read_done(er2)) bad_fd = 1;
+	for (i = 0; i < nopened; i++) if (fd_isopen[i]) bad_fd = 1;	/* nothing stays open */
+	if (bad_fd)
+		printf("bad-descriptor-use\n");
+	else if (bad_request)
 		printf("bad-read-request\n");
 	else if (rc == 0) {
 		printf("ok "); drv_puthex(fill_buf, n); printf(" used=%d\n", used);
@@ -142,12 +183,26 @@ static struct sess * ss; static int nss, ss_pos, cur;
 static const char * bad;		/* first malformed system call, if any */
 static int * order; static int norder;	/* sessions in the order they were opened (-1: beyond the script) */
 
+/* the application's own cookies (token app:...) */
+#define APP_FD 2000
+#define MAXAPP 8
+static struct { long from, to; struct entropy_read_cookie * er; int held, isopen; size_t served; } app[MAXAPP];
+static int napp;
+static int app_phase;	/* i + 1 while the driver calls the library for application cookie i; 0: the case's own calls */
+#define APP_BYTE(i, k) ((uint8_t)(0x3c + 29 * (i) + 7 * (k)))
+#define SETBAD(msg) do { if (bad == NULL) bad = (msg); } while (0)
+
 static int
 os_open(const char * path, int flags)
 {
 
 	if (strcmp(path, "/dev/urandom") != 0 && bad == NULL) bad = "open:path";
 	if ((flags & O_ACCMODE) != O_RDONLY && bad == NULL) bad = "open:flags";
+	if (app_phase) {
+		if (app[app_phase - 1].isopen) SETBAD("open:second-descriptor-for-one-cookie");
+		app[app_phase - 1].isopen = 1;
+		return (APP_FD + app_phase - 1);
+	}
 	if (cur >= 0 && bad == NULL) bad = "open:previous-descriptor-still-open";
 	order = realloc(order, (size_t)(norder + 1) * sizeof(int));
 	if (ss_pos >= nss) {		/* script exhausted */
@@ -179,6 +234,23 @@ __wrap_read(int fd, void * buf, size_t n)
 	struct rd * a;
 	size_t k;
 
+	if (app_phase || (fd >= APP_FD && fd < APP_FD + MAXAPP)) {
+		int i = fd - APP_FD;
+		/* an application cookie reads its own open descriptor; nobody else does */
+		if (i != app_phase - 1) {
+			SETBAD("read:descriptor-of-another-cookie");
+			errno = EBADF;
+			return (-1);
+		}
+		if (!app[i].isopen) {
+			SETBAD("read:closed-descriptor");
+			errno = EBADF;
+			return (-1);
+		}
+		for (k = 0; k < n && k < 11; k++)	/* short reads */
+			((uint8_t *)buf)[k] = APP_BYTE(i, app[i].served++);
+		return ((ssize_t)k);
+	}
 	if (cur < 0 || fd != FAKE_FD + cur) {
 		if (bad == NULL) bad = "read:descriptor";
 		errno = EBADF;
@@ -211,6 +283,21 @@ __wrap_close(int fd)
 	struct sess * s;
 	char c;
 
+	if (app_phase || (fd >= APP_FD && fd < APP_FD + MAXAPP)) {
+		int i = fd - APP_FD;
+		if (i != app_phase - 1) {
+			SETBAD("close:descriptor-of-another-cookie");
+			errno = EBADF;
+			return (-1);
+		}
+		if (!app[i].isopen) {
+			SETBAD("close:closed-descriptor");
+			errno = EBADF;
+			return (-1);
+		}
+		app[i].isopen = 0;
+		return (0);
+	}
 	if (cur < 0 || fd != FAKE_FD + cur) {
 		if (bad == NULL) bad = "close:descriptor";
 		errno = EBADF;
@@ -290,6 +377,63 @@ free_sessions(void)
 }
 
 static void
+app_parse(char * t)
+{
+	char * p;
+
+	napp = 0; app_phase = 0;
+	if (t == NULL || strncmp(t, "app:", 4) != 0) return;
+	for (p = t + 4; p != NULL && *p && napp < MAXAPP; ) {
+		char * q = strchr(p, ','); char * d;
+		if (q) *q++ = 0;
+		memset(&app[napp], 0, sizeof(app[napp]));
+		app[napp].from = strtol(p, &d, 10);
+		app[napp].to = (*d == '-') ? strtol(d + 1, NULL, 10) : app[napp].from;
+		napp++;
+		p = q;
+	}
+}
+
+static void
+app_release(int i)
+{
+	uint8_t b[24]; size_t k, at = app[i].served;
+
+	if (!app[i].held) return;
+	app[i].held = 0;
+	app_phase = i + 1;
+	/* the cookie is still good: it delivers what ITS descriptor delivers, then closes it */
+	memset(b, 0xaa, sizeof(b));
+	if (entropy_read_fill(app[i].er, b, sizeof(b))) SETBAD("application-cookie:fill-failed");
+	else for (k = 0; k < sizeof(b); k++) if (b[k] != APP_BYTE(i, at + k)) SETBAD("application-cookie:wrong-bytes");
+	if (entropy_read_done(app[i].er)) SETBAD("application-cookie:done-failed");
+	if (app[i].isopen) SETBAD("application-cookie:descriptor-left-open");
+	app_phase = 0;
+}
+
+/* before (after = 0) / after (after = 1) request number idx; idx < 0: the case is over */
+static void
+app_step(long idx, int after)
+{
+	int i;
+
+	for (i = 0; i < napp; i++) {
+		if (!after && idx == app[i].from && !app[i].held) {
+			app_phase = i + 1;
+			app[i].er = entropy_read_init();
+			app_phase = 0;
+			if (app[i].er == NULL) SETBAD("application-cookie:init-failed");
+			else {
+				app[i].held = 1;
+				if (!app[i].isopen) SETBAD("application-cookie:no-descriptor-of-its-own");
+			}
+		}
+		if ((after && idx == app[i].to) || idx < 0)
+			app_release(i);
+	}
+}
+
+static void
 print_sys(void)
 {
 	int i;
@@ -307,15 +451,16 @@ print_sys(void)
 }
 
 static void
-os_case(char * ostr, char * rstr)
+os_case(char * ostr, char * rstr, char * astr)
 {
-	char * p; int first = 1;
+	char * p; int first = 1; long idx = 0;
 
 #ifndef DRV_BLACKBOX
 	memset(&drbg, 0, sizeof(drbg));
 	instantiated = 0;
 #endif
 	load_sessions(ostr);
+	app_parse(astr);
 	p = rstr;
 	if (strcmp(rstr, "-") != 0) {
 		while (p != NULL) {
@@ -325,7 +470,9 @@ os_case(char * ostr, char * rstr)
 			n = (size_t)strtoull(p, NULL, 10);
 			buf = malloc(n ? n : 1);
 			memset(buf, 0xaa, n);
+			app_step(idx, 0);
 			rc = crypto_entropy_read(buf, n);
+			app_step(idx++, 1);
 			if (!first) putchar(' ');
 			first = 0;
 			if (rc == 0) { printf("0:"); drv_puthex(buf, n); }
@@ -334,6 +481,7 @@ os_case(char * ostr, char * rstr)
 			p = q;
 		}
 	}
+	app_step(-1, 1);
 #ifdef DRV_BLACKBOX
 	printf(" | used=%d", ss_pos);
 #else
@@ -346,7 +494,7 @@ os_case(char * ostr, char * rstr)
 }
 
 static void
-sess_case(char * nstr, char * sstr)
+sess_case(char * nstr, char * sstr, char * astr)
 {
 	size_t n = (size_t)strtoull(nstr, NULL, 10);
 	uint8_t * buf = malloc(n ? n : 1);
@@ -354,7 +502,11 @@ sess_case(char * nstr, char * sstr)
 
 	memset(buf, 0xaa, n);
 	load_sessions(sstr);
+	app_parse(astr);
+	app_step(0, 0);
 	rc = entropy_read(buf, n);
+	app_step(0, 1);
+	app_step(-1, 1);
 	if (rc == 0) { printf("ok "); drv_puthex(buf, n); }
 	else printf("fail");
 	if (norder != 1 && bad == NULL) bad = "open:not-exactly-once";
@@ -481,15 +633,18 @@ main(void)
 
 	setvbuf(stdout, NULL, _IOLBF, 0);
 	while ((line = drv_getline()) != NULL) {
+#ifdef DRV_FILL
+		uint32_t h = drv_case_hash(line);
+#endif
 		int n = drv_split(line, tok, 4);
 #ifdef DRV_FILL
 		if (n == 3 && strcmp(tok[0], "fill") == 0)
-			fill_case(tok[1], tok[2]);
+			fill_case(tok[1], tok[2], (int)((h >> 9) & 3));
 #elif defined(DRV_OS)
-		if (n == 3 && strcmp(tok[0], "os") == 0)
-			RUN_CASE(os_case(tok[1], tok[2]));
-		else if (n == 3 && strcmp(tok[0], "sess") == 0)
-			sess_case(tok[1], tok[2]);
+		if ((n == 3 || n == 4) && strcmp(tok[0], "os") == 0)
+			RUN_CASE(os_case(tok[1], tok[2], n == 4 ? tok[3] : NULL));
+		else if ((n == 3 || n == 4) && strcmp(tok[0], "sess") == 0)
+			sess_case(tok[1], tok[2], n == 4 ? tok[3] : NULL);
 #else
 		if (n == 3 && strcmp(tok[0], "drbg") == 0)
 			RUN_CASE(drbg_case(tok[1], tok[2]));
